@@ -538,7 +538,12 @@ def invariant_loop(interp, node, st, man, lo, hi):
             if n in state.env.vars:
                 d = state.deref(state.env.vars[n])
                 if isinstance(d, Arr) and isinstance(state.env.vars[n], Ref):
-                    arrnames.add(n)
+                    # the *name* is re-bound in the body: afterwards it refers to some array of this shape that is a
+                    # different object from the one it referred to before the loop (which other names may still alias
+                    # and which keeps its content unless it is also stored into)
+                    am = sym_array(T.Fresh.name(n + "_h"), d.shape, cell_sort(d))
+                    state.env.vars[n] = state.alloc(am, n)
+                    arrnames.discard(n)
                 elif T.is_num(d) or T.is_boolish(d):
                     state.env.vars[n] = _fresh_like(d, n + "_h")
                 else:
